@@ -12,7 +12,7 @@ META = {
     "level": "proof",
     "design_ref": "DESIGN.md §6 C12, notes/design-value.md",
     "text": "The Lean model (Qentem/Model/Value.lean, ValueOps.lean) gives every operation family of Value a total function on documents (objects keep capacity and removed slots, so Size() and slot numbers are predicted exactly). Theorems state the laws of the abstract document for every document and every operation sequence. Each run feeds the same operation sequences (exhaustive short sequences over a small alphabet, then random sequences with two-operand operations, pointers, every overload variant) to the real code under ASan/UBSan and to the compiled model and compares, after every step, a deep dump (public slot iteration), all typed getters/coercions, key and index probes, == against every root, and Stringify. The laws are additionally evaluated on the implementation's own output.",
-    "note": "Trusted: Lean kernel; axioms ⊆ {propext, Quot.sound, Classical.choice}; the correspondence harness and generators. Not covered: aliasing operands (v += v, v = v[k]), pointer cycles, operator=(ValueType) on a value with a live payload, real->text and text->number conversions beyond a fixed table (C09/C10), Sort (C15).",
+    "note": "Trusted: Lean kernel; axioms ⊆ {propext, Quot.sound, Classical.choice}; the correspondence harness and generators. Not covered: aliasing operands (v += v, v = v[k]), pointer cycles, operator=(ValueType::ValuePtr), real->text and text->number conversions beyond a fixed table (C09/C10), Sort (C15).",
 }
 
 THEOREMS = [
@@ -153,6 +153,31 @@ def noptr(t):
     return t
 
 
+def fully_compressed(t):
+    """no removed slot in any object and no undefined element in any array, at every depth."""
+    if t[0] == "a":
+        return all(x != ("U",) and fully_compressed(x) for x in t[1])
+    if t[0] == "o":
+        return all(kv is not None and fully_compressed(kv[1]) for kv in t[2])
+    return True
+
+
+def py_compress(t):
+    if t[0] == "a":
+        return ("a", [py_compress(x) for x in t[1] if x != ("U",)])
+    if t[0] == "o":
+        return ("o", "", [(kv[0], py_compress(kv[1])) for kv in t[2] if kv is not None])
+    return t
+
+
+def nocap(t):
+    if t[0] == "a":
+        return ("a", [nocap(x) for x in t[1]])
+    if t[0] == "o":
+        return ("o", "", [None if kv is None else (kv[0], nocap(kv[1])) for kv in t[2]])
+    return t
+
+
 def dbits(x):
     return "%016x" % struct.unpack("<Q", struct.pack("<d", float(x)))[0]
 
@@ -216,6 +241,20 @@ def check_laws(ops, impl_line):
                         out.append(("copy-content", "after '%s' the target is %r, the source was %r" % (op, node, src_before)))
                     if noptr(cur[sr]) != noptr(prev[sr]):
                         out.append(("copy-independence", "'%s' changed its source" % op))
+        if name == "typ":
+            empty = {0: ("U",), 2: ("o", "0", []), 3: ("a", []), 4: ("s", "-"), 5: ("n", 0), 6: ("i", 0),
+                     7: ("r", "0000000000000000"), 8: ("T",), 9: ("F",), 10: ("N",)}.get(int(t[2]))
+            node = navigate(cur[tr], tp, True)
+            if empty is not None and node != empty:
+                out.append(("assign-kind", "after '%s' the target reads %r, expected the empty value of that kind %r" % (op, node, empty)))
+        if name == "cmp":
+            node = navigate(cur[tr], tp, True)
+            if node is not None and not fully_compressed(node):
+                out.append(("compress", "after '%s' the target still holds a removed slot or an undefined element at some depth: %r" % (op, node)))
+            if not tp:
+                want = py_compress(prev[tr])
+                if nocap(noptr(cur[tr])) != nocap(noptr(want)):
+                    out.append(("compress", "after '%s' the root is %r, expected the live members in order: %r" % (op, cur[tr], want)))
         if name == "rem" and not tp and prev[tr][0] == "o":
             key = t[2]
             before = [kv for kv in prev[tr][2] if kv is not None and kv[0] != key]
